@@ -13,6 +13,7 @@ CONSTANTS
   Periods = {1, 2, 3, 4}
   NumGadgets = 3
   MaxScale = 65536
+  Bug = "none"
   MaxIter = 12
 INVARIANT WellFormedInv
 INVARIANT RingEqualsDocumented
